@@ -154,3 +154,117 @@ def rule_wincompose(ctx, prop: str) -> RuleResult:
                 )
     res.floor = 1 if prop == "C03" else 5
     return res
+
+
+def rule_annotsync(ctx, prop: str) -> RuleResult:
+    """A WindowExpr records its windowing twice: in the node's `idx` and in its type
+    (`T.Window(src_type, as_tensor, src_buf, idx)`), and the front end reads the type's
+    copy when the procedure is called from another one.  Every rewrite that changes the
+    `idx` of a (possible) WindowExpr must therefore change the type's `idx` with it:
+      (a) attribute replacements `{"idx": ...}` handed to `_replace_helper` — either the
+          dictionary carries a "type" built from the same idx, or the funnel
+          `_replace_helper` synchronises window types itself;
+      (b) `X.update(idx=...)` on a WindowExpr and `LoopIR.WindowExpr(name, idx, typ, ...)`
+          constructions pass a type whose idx is that same expression."""
+    ix = ctx.ix
+    res = RuleResult("ANNOTSYNC")
+    m = ix.module(S)
+    helper = m.funcs.get("_replace_helper")
+    if helper is None:
+        raise AnalysisError("anchor vanished: _replace_helper")
+    funnel_syncs = False
+    for n in helper.body_nodes():
+        if isinstance(n, ast.If) and "WindowExpr" in ast.unparse(n.test) and "'idx' in" in ast.unparse(n.test):
+            for k in ast.walk(n):
+                if isinstance(k, ast.Call) and isinstance(k.func, ast.Attribute) and k.func.attr == "update" and any(kw.arg == "idx" for kw in k.keywords) and ".type" in ast.unparse(k.func.value):
+                    funnel_syncs = True
+    res.instances += 1
+    res.sample(f"_replace_helper synchronises the window type when only `idx` is replaced: {funnel_syncs}")
+    res.ob(True)
+
+    def handles_window(f: Func, at: ast.AST) -> bool:
+        """can the node rewritten at `at` be a WindowExpr?  (not on a branch for Read only /
+        not after a raise for WindowExpr)"""
+        x, p = at, parent(at)
+        while p is not None and p is not f.node:
+            if isinstance(p, ast.If):
+                t = ast.unparse(p.test)
+                in_body = any(x is s for s in p.body)
+                if "isinstance" in t and "LoopIR.Read)" in t and "WindowExpr" not in t and in_body and not t.startswith("not "):
+                    return False
+            x, p = p, parent(p)
+        for n in f.body_nodes():
+            if isinstance(n, ast.If) and n.lineno < at.lineno and "WindowExpr" in ast.unparse(n.test) and "isinstance" in ast.unparse(n.test):
+                from ..flow import always_raises
+
+                if always_raises(n.body) and " and " not in ast.unparse(n.test):
+                    return False
+        return True
+
+    # (a) dictionaries with an "idx" key returned by read-rewriting callbacks
+    for qn, f in m.funcs.items():
+        if not isinstance(f.node, ast.FunctionDef) or not f.node.name.startswith("mk_read"):
+            continue
+        for n in f.body_nodes():
+            if isinstance(n, ast.Return) and isinstance(n.value, ast.Dict):
+                keys = [k.value for k in n.value.keys if isinstance(k, ast.Constant)]
+                if "idx" not in keys or not handles_window(f, n):
+                    continue
+                res.instances += 1
+                res.nontrivial += 1
+                res.analysed.append(f"{S}:{qn}")
+                ok = "type" in keys or funnel_syncs
+                res.ob(ok)
+                res.sample(f"{qn}: replaces `idx` of a possible WindowExpr; type synchronised ({'own' if 'type' in keys else 'by _replace_helper'}): {ok}")
+                if not ok:
+                    res.add(
+                        Finding("ANNOTSYNC", S, n.lineno, qn, "idx-without-type",
+                                f"{qn} rewrites the `idx` of a window expression but leaves the copy in its T.Window type unchanged (and _replace_helper does not synchronise it): "
+                                f"after expand_dim/resize_dim on a buffer with a window alias, calling the scheduled procedure from a new one makes the bounds check "
+                                f"reason about the old windowing (AssertionError, or a valid call rejected / an invalid one accepted)")
+                    )
+    # (b) constructions
+    for qn, f in m.funcs.items():
+        if not isinstance(f.node, ast.FunctionDef):
+            continue
+        for n in f.body_nodes():
+            idx_e = typ_e = None
+            if isinstance(n, ast.Call) and dotted(n.func) == "LoopIR.WindowExpr" and len(n.args) >= 3:
+                idx_e, typ_e = n.args[1], n.args[2]
+            elif isinstance(n, ast.Call) and isinstance(n.func, ast.Attribute) and n.func.attr == "update" and any(kw.arg == "idx" for kw in n.keywords):
+                # only when the updated node is established to be a WindowExpr
+                x, p, is_win = n, parent(n), False
+                recv = ast.unparse(n.func.value)
+                while p is not None and p is not f.node:
+                    if isinstance(p, ast.If) and any(x is s for s in p.body):
+                        for t in ast.walk(p.test):
+                            if isinstance(t, ast.Call) and last_name(t) == "isinstance" and len(t.args) == 2 and "WindowExpr" in ast.unparse(t.args[1]) and ast.unparse(t.args[0]) == recv:
+                                is_win = True
+                    x, p = p, parent(p)
+                if not is_win:
+                    continue  # not the window expression itself (e.g. its type being rebuilt)
+                idx_e = next(kw.value for kw in n.keywords if kw.arg == "idx")
+                typ_e = next((kw.value for kw in n.keywords if kw.arg == "type"), None)
+            else:
+                continue
+            res.instances += 1
+            res.nontrivial += 1
+            res.analysed.append(f"{S}:{qn}")
+            ok = False
+            if typ_e is not None:
+                srcs = [typ_e]
+                if isinstance(typ_e, ast.Name):
+                    srcs = [k.value for k in f.body_nodes() if isinstance(k, ast.Assign) and len(k.targets) == 1 and dotted(k.targets[0]) == typ_e.id]
+                for sv in srcs:
+                    for k in ast.walk(sv):
+                        if isinstance(k, ast.Call):
+                            args = [ast.unparse(a) for a in k.args] + [ast.unparse(kw.value) for kw in k.keywords if kw.arg == "idx"]
+                            if (dotted(k.func) or "").endswith("Window") or (isinstance(k.func, ast.Attribute) and k.func.attr == "update"):
+                                if ast.unparse(idx_e) in args:
+                                    ok = True
+            res.ob(ok)
+            res.sample(f"{qn}: window expression built with idx `{ast.unparse(idx_e)[:30]}` and a type recording the same idx: {ok}")
+            if not ok:
+                res.add(Finding("ANNOTSYNC", S, n.lineno, qn, "construct-idx-type", f"{qn} builds a window expression whose type does not record the same `idx` (`{ast.unparse(idx_e)[:40]}`)"))
+    res.floor = 8
+    return res
